@@ -198,7 +198,7 @@ class C16(Spec):
             import robotpy_ext.misc.precise_delay as pd
             import wpilib
 
-            pd.int = sx.sym_int
+            pd.int = sx.IntShadow
             env = Env(c)
             wpilib.ENV = env
             nd = pd.NotifierDelay(c.real("P", 0.001, 100))
